@@ -95,97 +95,9 @@ func runC18(c *Ctx) {
 	L.Rule("R-C18-HALVE", "reset halves each nibble independently (bit-dependency of the constant expression) for every index; clear zeroes every index; all rows visited; cmRow is a slice", 5)
 	L.Rule("R-C18-SIZE", "mask and rows sized from the same next2Power value; rows hold N/2 bytes; next2Power is the full bit-smearing sequence", 3)
 	L.Rule("R-C18-INDEX", "Increment/Estimate use the same row index expression over all rows; Estimate = running min (<) from 255", 3)
-	L.Rule("R-C18-TINYLFU", "tinyLFU.Increment/reset/clear sequencing; resetAt = numCounters", 4)
+	L.Rule("R-C18-TINYLFU", "tinyLFU.Increment/reset/clear sequencing; resetAt = numCounters; policy.Clear uses clear (not reset); the doorkeeper's Clear zeroes every word", 6)
 
-	var byteIdx, shift string
-	var width, mask uint64
-
-	c.Group("R-C18-NIBBLE", "cmRow.get", func() {
-		fn := P.Fn("ristretto", "cmRow", "get")
-		L.Analysed(fname(fn))
-		tb := newTB(fn)
-		rs := returnsOf(fn)
-		if len(rs) != 1 {
-			L.Undecided("R-C18-NIBBLE", "cmRow.get", "expected one return", fn.Pos())
-			return
-		}
-		env := Env{}
-		t := tb.T(returnValues(rs[0])[0])
-		if !Match("and(?m,shr(idx(p[0],?b),?s))", t, env) || env["m"].Op != "c" {
-			L.Fail("R-C18-NIBBLE", "cmRow.get", "get is "+t.String()+", want (r[byte] >> shift) & mask", rs[0].Pos())
-			return
-		}
-		env2 := Env{}
-		if !Match("mul(and(c[1],p[1]),?w)", env["s"], env2) && !Match("mul(?w,and(c[1],p[1]))", env["s"], env2) || env2["w"].Op != "c" {
-			L.Fail("R-C18-NIBBLE", "cmRow.get", "shift is "+env["s"].String()+", want (n&1)*width", rs[0].Pos())
-			return
-		}
-		byteIdx, shift = env["b"].String(), env["s"].String()
-		mask, _ = strconv.ParseUint(env["m"].Sym, 10, 64)
-		width, _ = strconv.ParseUint(env2["w"].Sym, 10, 64)
-		ok := byteIdx == "quo(p[1],c[2])" && width > 0 && mask == (1<<width)-1 && 2*width == 8
-		L.Check(ok, "R-C18-NIBBLE", "cmRow.get", fmt.Sprintf("(r[n/2] >> (n&1)*%d) & %d: two %d-bit counters per byte", width, mask, width),
-			fmt.Sprintf("nibble addressing is inconsistent: byte index %s, width %d, mask %d (want n/2, mask = 2^width−1, 2·width = 8)", byteIdx, width, mask), rs[0].Pos())
-	})
-	c.Group("R-C18-NIBBLE", "cmRow.increment", func() {
-		fn := P.Fn("ristretto", "cmRow", "increment")
-		L.Analysed(fname(fn))
-		tb := newTB(fn)
-		if byteIdx == "" {
-			L.Undecided("R-C18-NIBBLE", "cmRow.increment", "cmRow.get not recognised", fn.Pos())
-			return
-		}
-		nib := "and(c[" + fmt.Sprint(mask) + "],shr(idx(p[0]," + byteIdx + ")," + shift + "))"
-		below := edgesWhere(fn, tb, "lt("+nib+",c["+fmt.Sprint(mask)+"])", nil, true)
-		var stores []*ssa.Store
-		eachInstr(fn, func(in ssa.Instruction) {
-			if st, ok := in.(*ssa.Store); ok {
-				if _, isIdx := st.Addr.(*ssa.IndexAddr); isIdx {
-					stores = append(stores, st)
-				}
-			}
-		})
-		if len(stores) != 1 {
-			L.Fail("R-C18-NIBBLE", "cmRow.increment", fmt.Sprintf("expected one store into the row, found %d", len(stores)), fn.Pos())
-			return
-		}
-		st := stores[0]
-		addr := tb.pointee(st.Addr).String()
-		val := tb.T(st.Val).String()
-		wantAddr := "idx(p[0]," + byteIdx + ")"
-		wantVal1 := "add(" + wantAddr + ",shl(c[1]," + shift + "))"
-		wantVal2 := "add(shl(c[1]," + shift + ")," + wantAddr + ")"
-		if addr != wantAddr || (val != wantVal1 && val != wantVal2) {
-			L.Fail("R-C18-NIBBLE", "cmRow.increment", "updates "+addr+" with "+val+"; want r[n/2] += 1 << (n&1)*width on the byte and shift get() reads", st.Pos())
-			return
-		}
-		if len(below) == 0 {
-			L.Fail("R-C18-NIBBLE", "cmRow.increment", "no saturation guard `counter < "+fmt.Sprint(mask)+"` on the nibble that is incremented (same byte, same shift, same mask): a full counter would wrap into its neighbour", st.Pos())
-			return
-		}
-		bad, _ := reach(entryPos(fn), isInstr(st), nil, cutSet(below))
-		L.Check(bad == nil, "R-C18-NIBBLE", "cmRow.increment", "r[n/2] += 1<<shift only when that nibble < "+fmt.Sprint(mask)+" (same byte/shift/mask as get)", "the increment is reachable without the saturation guard having passed", st.Pos())
-	})
-	c.Group("R-C18-NIBBLE", "callers", func() {
-		// get/increment are only called with an index below 2*len(row): index = (..) & mask, rows hold N/2 bytes (R-C18-SIZE)
-		n := 0
-		for _, fn := range P.SrcFuncs {
-			if fn.Pkg != P.Pkgs["ristretto"] {
-				continue
-			}
-			tb := newTB(fn)
-			for _, callee := range []string{"cmRow.get", "cmRow.increment"} {
-				for _, ci := range callsTo(fn, callee) {
-					n++
-					it := tb.T(ci.Common().Args[1])
-					if !Match("and(_,fld[mask](p[0]))", it, nil) && !Match("and(fld[mask](p[0]),_)", it, nil) {
-						L.Fail("R-C18-NIBBLE", "caller:"+fname(fn), callee+" is called with index "+it.String()+" that is not reduced by s.mask", ci.Pos())
-					}
-				}
-			}
-		}
-		L.Check(n >= 2, "R-C18-NIBBLE", "callers", "every counter index passed to get/increment is masked with s.mask", "fewer than two callers found", 0)
-	})
+	nibbleRule(c, "R-C18-NIBBLE")
 
 	// ---- R-C18-HALVE
 	c.Group("R-C18-HALVE", "cmRow.reset", func() {
@@ -409,12 +321,14 @@ func runC18(c *Ctx) {
 				env := Env{}
 				if condPolarity(te.T(iff.Cond), "lt("+te.T(g).String()+",?m)", env) > 0 {
 					if ph, ok := env["m"].V.(*ssa.Phi); ok {
+						// leaves of the φ-web the minimum lives in (range loops give one φ, index loops
+						// with a post statement two): only the initial 255 and the row value
 						init, upd := false, true
-						for _, e := range ph.Edges {
+						for _, e := range phiLeaves(ph) {
 							switch {
 							case isConst(e, "255"):
 								init = true
-							case e == ssa.Value(ph) || e == ssa.Value(g):
+							case e == ssa.Value(g):
 							default:
 								upd = false
 							}
@@ -483,13 +397,15 @@ func runC18(c *Ctx) {
 	c.Group("R-C18-TINYLFU", "tinyLFU.clear", func() {
 		sub := &Ctx{L: newLedger("C18"), P: P, Tier: c.Tier}
 		sub.L.P = P
-		clearResetRule(sub, "R-C18-TINYLFU")
+		clearResetParts(sub, "R-C18-TINYLFU", "admit")
 		for _, o := range sub.L.Obls {
-			if o.Construct == "tinyLFU.clear" {
+			// tinyLFU.clear zeroes everything, and it is what defaultPolicy.Clear calls (not the halving reset)
+			if o.Construct == "tinyLFU.clear" || o.Construct == "defaultPolicy.Clear#tinyLFU.clear" {
 				L.add(o)
 			}
 		}
 	})
+	bloomClearRule(c, "R-C18-TINYLFU")
 	c.Group("R-C18-TINYLFU", "newTinyLFU", func() {
 		fn := P.Fn("ristretto", "", "newTinyLFU")
 		tb := newTB(fn)
@@ -521,4 +437,99 @@ func keysInt(m map[int]bool) []int {
 		out = append(out, k)
 	}
 	return out
+}
+
+// nibbleRule: cmRow.get/increment agree on byte, shift and mask; increment saturates. Shared by C18
+// and C09 (a counter that wraps to 0 makes the hottest key look like the coldest candidate).
+func nibbleRule(c *Ctx, ruleID string) {
+	L, P := c.L, c.P
+	var byteIdx, shift string
+	var width, mask uint64
+
+	c.Group(ruleID, "cmRow.get", func() {
+		fn := P.Fn("ristretto", "cmRow", "get")
+		L.Analysed(fname(fn))
+		tb := newTB(fn)
+		rs := returnsOf(fn)
+		if len(rs) != 1 {
+			L.Undecided(ruleID, "cmRow.get", "expected one return", fn.Pos())
+			return
+		}
+		env := Env{}
+		t := tb.T(returnValues(rs[0])[0])
+		if !Match("and(?m,shr(idx(p[0],?b),?s))", t, env) || env["m"].Op != "c" {
+			L.Fail(ruleID, "cmRow.get", "get is "+t.String()+", want (r[byte] >> shift) & mask", rs[0].Pos())
+			return
+		}
+		env2 := Env{}
+		if !Match("mul(and(c[1],p[1]),?w)", env["s"], env2) && !Match("mul(?w,and(c[1],p[1]))", env["s"], env2) || env2["w"].Op != "c" {
+			L.Fail(ruleID, "cmRow.get", "shift is "+env["s"].String()+", want (n&1)*width", rs[0].Pos())
+			return
+		}
+		byteIdx, shift = env["b"].String(), env["s"].String()
+		mask, _ = strconv.ParseUint(env["m"].Sym, 10, 64)
+		width, _ = strconv.ParseUint(env2["w"].Sym, 10, 64)
+		ok := byteIdx == "quo(p[1],c[2])" && width > 0 && mask == (1<<width)-1 && 2*width == 8
+		L.Check(ok, ruleID, "cmRow.get", fmt.Sprintf("(r[n/2] >> (n&1)*%d) & %d: two %d-bit counters per byte", width, mask, width),
+			fmt.Sprintf("nibble addressing is inconsistent: byte index %s, width %d, mask %d (want n/2, mask = 2^width−1, 2·width = 8)", byteIdx, width, mask), rs[0].Pos())
+	})
+	c.Group(ruleID, "cmRow.increment", func() {
+		fn := P.Fn("ristretto", "cmRow", "increment")
+		L.Analysed(fname(fn))
+		tb := newTB(fn)
+		if byteIdx == "" {
+			L.Undecided(ruleID, "cmRow.increment", "cmRow.get not recognised", fn.Pos())
+			return
+		}
+		nib := "and(c[" + fmt.Sprint(mask) + "],shr(idx(p[0]," + byteIdx + ")," + shift + "))"
+		below := edgesWhere(fn, tb, "lt("+nib+",c["+fmt.Sprint(mask)+"])", nil, true)
+		var stores []*ssa.Store
+		eachInstr(fn, func(in ssa.Instruction) {
+			if st, ok := in.(*ssa.Store); ok {
+				if _, isIdx := st.Addr.(*ssa.IndexAddr); isIdx {
+					stores = append(stores, st)
+				}
+			}
+		})
+		if len(stores) != 1 {
+			L.Fail(ruleID, "cmRow.increment", fmt.Sprintf("expected one store into the row, found %d", len(stores)), fn.Pos())
+			return
+		}
+		st := stores[0]
+		addr := tb.pointee(st.Addr).String()
+		val := tb.T(st.Val).String()
+		wantAddr := "idx(p[0]," + byteIdx + ")"
+		wantVal1 := "add(" + wantAddr + ",shl(c[1]," + shift + "))"
+		wantVal2 := "add(shl(c[1]," + shift + ")," + wantAddr + ")"
+		if addr != wantAddr || (val != wantVal1 && val != wantVal2) {
+			L.Fail(ruleID, "cmRow.increment", "updates "+addr+" with "+val+"; want r[n/2] += 1 << (n&1)*width on the byte and shift get() reads", st.Pos())
+			return
+		}
+		if len(below) == 0 {
+			L.Fail(ruleID, "cmRow.increment", "no saturation guard `counter < "+fmt.Sprint(mask)+"` on the nibble that is incremented (same byte, same shift, same mask): a full counter would wrap into its neighbour", st.Pos())
+			return
+		}
+		bad, _ := reach(entryPos(fn), isInstr(st), nil, cutSet(below))
+		L.Check(bad == nil, ruleID, "cmRow.increment", "r[n/2] += 1<<shift only when that nibble < "+fmt.Sprint(mask)+" (same byte/shift/mask as get)", "the increment is reachable without the saturation guard having passed", st.Pos())
+	})
+	c.Group(ruleID, "callers", func() {
+		// get/increment are only called with an index below 2*len(row): index = (..) & mask, rows hold N/2 bytes (R-C18-SIZE)
+		n := 0
+		for _, fn := range P.SrcFuncs {
+			if fn.Pkg != P.Pkgs["ristretto"] {
+				continue
+			}
+			tb := newTB(fn)
+			for _, callee := range []string{"cmRow.get", "cmRow.increment"} {
+				for _, ci := range callsTo(fn, callee) {
+					n++
+					it := tb.T(ci.Common().Args[1])
+					if !Match("and(_,fld[mask](p[0]))", it, nil) && !Match("and(fld[mask](p[0]),_)", it, nil) {
+						L.Fail(ruleID, "caller:"+fname(fn), callee+" is called with index "+it.String()+" that is not reduced by s.mask", ci.Pos())
+					}
+				}
+			}
+		}
+		L.Check(n >= 2, ruleID, "callers", "every counter index passed to get/increment is masked with s.mask", "fewer than two callers found", 0)
+	})
 }
